@@ -18,7 +18,7 @@
 (* these operators (TLC cannot hold such numbers natively, and the         *)
 (* bit-level ripple adder costs 256 interpreted steps per addition).       *)
 (***************************************************************************)
-EXTENDS BitVec
+EXTENDS BitVec, SequencesExt
 
 RECURSIVE P2(_)
 P2(n) == IF n = 0 THEN 1 ELSE 2 * P2(n - 1)                 \* n <= 30
@@ -32,40 +32,43 @@ LZero(K) == [j \in 1..K |-> 0]
 LIsZero(x) == \A j \in 1..Len(x) : x[j] = 0
 
 ---------------------------------------------------------------------------
-(* Add64 / Sub64 chained through the limbs *)
-RECURSIVE LAddR(_, _, _, _, _)
-LAddR(x, y, c, B, acc) ==
-  LET j == Len(acc) + 1 IN
-  IF j > Len(x) THEN [v |-> acc, c |-> c]
-  ELSE LET s == x[j] + y[j] + c IN LAddR(x, y, s \div B, B, Append(acc, s % B))
-LAddC(x, y, cin, L) == LAddR(x, y, cin, P2(L), <<>>)      \* v = low limbs, c = carry out (overflow)
+(* The chains below are folds over the limb positions (FoldLeft of the       *)
+(* CommunityModules: a loop, so that TLC's evaluation stack stays shallow).   *)
+Idx(n) == [j \in 1..n |-> j]
+
+(* Add64 / Sub64 chained through the limbs: state <<carry, limbs so far>> *)
+LAddC(x, y, cin, L) ==
+  LET B == P2(L)
+      step(st, j) == LET s == x[j] + y[j] + st[1] IN <<s \div B, Append(st[2], s % B)>>
+      r == FoldLeft(step, <<cin, <<>>>>, Idx(Len(x)))
+  IN [v |-> r[2], c |-> r[1]]                              \* v = low limbs, c = carry out (overflow)
 LAdd(x, y, L) == LAddC(x, y, 0, L)
 
-RECURSIVE LSubR(_, _, _, _, _)
-LSubR(x, y, c, B, acc) ==
-  LET j == Len(acc) + 1 IN
-  IF j > Len(x) THEN [v |-> acc, c |-> c]
-  ELSE LET d == x[j] - y[j] - c IN
-       LSubR(x, y, IF d < 0 THEN 1 ELSE 0, B, Append(acc, IF d < 0 THEN d + B ELSE d))
-LSubC(x, y, bin, L) == LSubR(x, y, bin, P2(L), <<>>)      \* c = borrow out (underflow)
+LSubC(x, y, bin, L) ==
+  LET B == P2(L)
+      step(st, j) == LET d == x[j] - y[j] - st[1] IN
+                     IF d < 0 THEN <<1, Append(st[2], d + B)>> ELSE <<0, Append(st[2], d)>>
+      r == FoldLeft(step, <<bin, <<>>>>, Idx(Len(x)))
+  IN [v |-> r[2], c |-> r[1]]                              \* c = borrow out (underflow)
 LSub(x, y, L) == LSubC(x, y, 0, L)
 
 ---------------------------------------------------------------------------
 (* schoolbook multiplication: one row per limb of y; a row is a chain of    *)
 (* Mul64 (hi, lo) + Add64.  hi = running upper K limbs, lo = finished limbs *)
-RECURSIVE LRow(_, _, _, _, _, _)
-LRow(x, d, hi, c, B, acc) ==             \* acc = low limbs of hi + x*d so far, c = carry limb
-  LET j == Len(acc) + 1 IN
-  IF j > Len(x) THEN Append(acc, c)      \* K+1 limbs
-  ELSE LET t == x[j] * d + hi[j] + c IN LRow(x, d, hi, t \div B, B, Append(acc, t % B))
+LRow(x, d, hi, B) ==                     \* hi + x*d on K+1 limbs
+  LET step(st, j) == LET t == x[j] * d + hi[j] + st[1] IN <<t \div B, Append(st[2], t % B)>>
+      r == FoldLeft(step, <<0, <<>>>>, Idx(Len(x)))
+  IN Append(r[2], r[1])
 
-RECURSIVE LMulR(_, _, _, _, _, _)
-LMulR(x, y, i, hi, lo, B) ==
-  IF i > Len(y) THEN [v |-> lo, h |-> hi, ovf |-> ~LIsZero(hi)]
-  ELSE LET t == IF y[i] = 0 THEN Append(hi, 0) ELSE LRow(x, y[i], hi, 0, B, <<>>)
-       IN LMulR(x, y, i + 1, Tail(t), Append(lo, t[1]), B)
 (* x*y = v + B^K * h ;  ovf <=> the exact product does not fit K limbs *)
-LMul(x, y, L) == LMulR(Force(x), y, 1, Force(LZero(Len(x))), <<>>, P2(L))
+LMul(x, y, L) ==
+  LET B == P2(L)
+      X == Force(x)
+      step(st, i) ==                     \* st = <<hi, lo>>
+        LET t == IF y[i] = 0 THEN Append(st[1], 0) ELSE LRow(X, y[i], st[1], B)
+        IN <<Tail(t), Append(st[2], t[1])>>
+      r == FoldLeft(step, <<Force(LZero(Len(x))), <<>>>>, Idx(Len(y)))
+  IN [v |-> r[2], h |-> r[1], ovf |-> ~LIsZero(r[1])]
 
 ---------------------------------------------------------------------------
 (* comparison from the most significant limb *)
@@ -154,17 +157,21 @@ RECURSIVE TopBit(_, _)
 TopBit(v, k) == IF v = 0 THEN k ELSE TopBit(v \div 2, k + 1)                \* bit length of v
 LMsb(x, L) == LET j == TopLimb(x, Len(x)) IN IF j = 0 THEN 0 ELSE L * (j - 1) + TopBit(x[j], 0)
 
-RECURSIVE LDivR(_, _, _, _, _, _)
-LDivR(x, yx, i, r, q, L) ==              \* yx = y with one more (zero) limb, r has Len(x)+1 limbs
-  IF i = 0 THEN [q |-> q, r |-> SubSeq(r, 1, Len(x))]
-  ELSE LET B  == P2(L)
-           r2 == [j \in 1..Len(r) |-> ((2 * r[j]) % B) + (IF j = 1 THEN LBit(x, i, L) ELSE r[j - 1] \div (B \div 2))]
-           d  == LSub(r2, yx, L)
-       IN IF d.c = 0
-            THEN LDivR(x, yx, i - 1, d.v, [q EXCEPT ![(i - 1) \div L + 1] = @ + P2((i - 1) % L)], L)
-            ELSE LDivR(x, yx, i - 1, Force(r2), q, L)
 LDivMod(x, y, L) ==
-  LDivR(x, Append(Force(y), 0), LMsb(x, L), Force(LZero(Len(x) + 1)), Force(LZero(Len(x))), L)
+  LET B  == P2(L)
+      h  == B \div 2
+      X  == Force(x)
+      yx == Append(Force(y), 0)          \* y with one more (zero) limb; r has Len(x)+1 limbs
+      m  == LMsb(X, L)
+      step(st, i) ==                     \* st = <<r, q>>, bit i of x is brought down
+        LET r   == st[1]
+            bit == LBit(X, i, L)
+            r2  == Force([j \in 1..Len(r) |-> ((2 * r[j]) % B) + (IF j = 1 THEN bit ELSE r[j - 1] \div h)])
+            d   == LSub(r2, yx, L)
+        IN IF d.c = 0 THEN <<d.v, [st[2] EXCEPT ![(i - 1) \div L + 1] = @ + P2((i - 1) % L)]>>
+                      ELSE <<r2, st[2]>>
+      res == FoldLeft(step, <<Force(LZero(Len(x) + 1)), Force(LZero(Len(x)))>>, [t \in 1..m |-> m - t + 1])
+  IN [q |-> res[2], r |-> SubSeq(res[1], 1, Len(x))]
 
 (* the defining property of Euclidean division, used to VERIFY a (q, r) pair  *)
 (* cheaply (one multiplication) instead of computing it:  x = q*y + r, r < y  *)
